@@ -272,6 +272,7 @@ def build(spec, p, symbolic, hprio=None, hprio_comp=None):
         "rule": run.get("rule", 0),
         "max_time": val(run.get("max_time", 8), p),
         "unit_time": run.get("unit_time", 1),
+        "backward": bool(run.get("backward", False)),
     }
     return M
 
